@@ -288,16 +288,24 @@ func memManifestCheckedBeforeStore(c *core.Ctx, rule string) {
 					continue
 				}
 				n++
-				okChecked := false
-				for _, cd := range facts.CondsAtDeep(b) {
-					if x, isNil, isNC := facts.NilCheck(cd); isNC && isNil {
-						if ex, isEx := facts.Resolve(x).(*ssa.Extract); isEx {
-							if call, isCall := ex.Tuple.(*ssa.Call); isCall && call.Call.StaticCallee() == cm {
-								okChecked = true
+				okChecked, anyCtx := true, false
+				forEachCallContext(b, 2, func(conds []facts.Cond) {
+					anyCtx = true
+					found := false
+					for _, cd := range conds {
+						if x, isNil, isNC := facts.NilCheck(cd); isNC && isNil {
+							if ex, isEx := facts.Resolve(x).(*ssa.Extract); isEx {
+								if call, isCall := ex.Tuple.(*ssa.Call); isCall && call.Call.StaticCallee() == cm {
+									found = true
+								}
 							}
 						}
 					}
-				}
+					if !found {
+						okChecked = false
+					}
+				})
+				okChecked = okChecked && anyCtx
 				c.Check(okChecked, rule, "PushManifest/"+fld+"-store-after-reference-check", mu.Pos(), "stored only after checkManifest succeeded", "PushManifest binds a "+strings.TrimSuffix(fld, "s")+" on a path where the manifest's references were not checked by checkManifest (e.g. a short cut for content that is already stored): a manifest whose blobs or child manifests were deleted meanwhile is accepted, unlike in the reference model")
 			}
 		}
@@ -453,9 +461,10 @@ func flushContentLengthIsBodySize(c *core.Ctx, rule string) {
 		return ok && bi.Name() == "len" && what(call.Call.Args[0])
 	}
 	isChunk := func(v ssa.Value) bool { _, fld, ok := facts.FieldOf(facts.Resolve(v)); return ok && fld == "chunk" }
-	isBuf := func(v ssa.Value) bool { return argIsParam(v, flush, 1) }
+	isBuf := func(v ssa.Value) bool { return argIsParam(v, flush, 1) || argIsParam(resolveUp(v, flush, 2), flush, 1) }
+	builder := flushRequestBuilder(flush)
 	var setCL ssa.Instruction
-	for _, b := range flush.Blocks {
+	for _, b := range builder.Blocks {
 		for _, in := range b.Instrs {
 			st, ok := in.(*ssa.Store)
 			if !ok {
@@ -478,7 +487,7 @@ func flushContentLengthIsBodySize(c *core.Ctx, rule string) {
 	}
 	okUse := setCL != nil
 	if setCL != nil {
-		for _, ci := range facts.CallsIn(flush) {
+		for _, ci := range facts.CallsIn(builder) {
 			if strings.HasSuffix(facts.CalleeName(ci.Common()), "ocirequest.RangeString") && !facts.Dominates(setCL, ci) {
 				okUse = false
 			}
